@@ -156,6 +156,7 @@ def run(ctx, rep):
     mis = [tokenlevel.concretise(c["toks"], "\n") for c in tok if c["o"]["verdict"] == "accept" and c["o"]["errs"]]
     texts += rej[:: max(1, len(rej) // (40 if ctx.thorough else 8))] + mis[:: max(1, len(mis) // (40 if ctx.thorough else 8))]
     texts += ["\ufeffNAME = 1\nb = 'x'\nEND\n", "a = " + "(" * 2500 + "1" + ")" * 2500 + "\nEND\n", "S = {1.5, 2.5}\nEND\n",
+              "a = b*/\nEND\n", "t = 12:00+01:00\nu = 12:00-05:00\nEND\n", "END\n", "/* only a comment */\n", "a = 1\nb = 5\na = 2\nOBJECT = c\n x = 1\nEND_OBJECT\nOBJECT = c\n x = 2\nEND_OBJECT\nEND\n",
               "FILTERS = {1 <m>, 2 <m>}\nEND\n", "u = 5 <m/s^2>\nv = (1, 2) <cm**-1>\nEND\n",
               b"A = 1\r\nB = 'x'\r\nGROUP = G\r\n  C = (1, 2)\r\nEND_GROUP = G\r\nEND\r\n" + bytes([0xff, 0xfe, 0x00, 0x80, 0x41]) * 60,
               b"A = 1\nEND\n\x00\x00" + bytes(range(128, 256)) * 3,
